@@ -68,7 +68,7 @@ func (s *c27srv) handle(c *scriptsrv.Conn, reqID uint32, r ua.Request) (ua.Respo
 			if kind == 'o' || kind == 'O' {
 				resp = &ua.PublishResponse{ResponseHeader: hdr(), SubscriptionID: 1, AvailableSequenceNumbers: []uint32{},
 					NotificationMessage: &ua.NotificationMessage{SequenceNumber: uint32(k + 1), PublishTime: time.Now(), NotificationData: []*ua.ExtensionObject{}},
-					Results: []ua.StatusCode{}, DiagnosticInfos: []*ua.DiagnosticInfo{}}
+					Results:             []ua.StatusCode{}, DiagnosticInfos: []*ua.DiagnosticInfo{}}
 			} else {
 				resp = scriptsrv.Fault(r, ua.StatusBadInternalError)
 			}
